@@ -47,12 +47,13 @@ def parseHeaders (s : String) : Option (PyDict Str Str) :=
     (tokS b).map fun v => (sOf a, v)
 
 def fmtExch (e : Exch) : String :=
-  s!"{ofS e.req.method} {e.req.svc} {fmtHeaders e.req.headers} {fmtReaction e.react}"
+  s!"{ofS e.req.method} {e.req.svc} {fmtHeaders e.req.headers} r={match e.req.routed with | some i => toString i | none => "!"} {fmtReaction e.react}"
 
 def parseExch : List String → Option Exch
-  | m :: svc :: hs :: rest => do
+  | m :: svc :: hs :: rt :: rest => do
       let svc ← svc.toNat?; let h ← parseHeaders hs; let r ← parseReaction rest
-      pure ⟨{ method := sOf m, svc := svc, headers := h }, r⟩
+      let routed := ((splitEq rt).2).toNat?
+      pure ⟨{ method := sOf m, svc := svc, headers := h, routed := routed }, r⟩
   | _ => none
 
 def fmtExc : Exc → String
@@ -202,7 +203,7 @@ def stepLine (st : St) (toks : List String) : St :=
 
 def explain (exp : PyDict Str Nat) (s : Step) : String :=
   let exp' := s.exch.foldl foldExch exp
-  s!"routed={routedOk exp' s} result={resultOk s} target={targetOk s} fallback={fallbackOk s.call s.exch} valid={s.exch.all (fun e => validReq e.req)} expected[{fmtRouted (exp'.map fun p => (p.1, some p.2))}]"
+  s!"routed={routedOk exp' s} result={resultOk s} target={targetOk s} fallback={fallbackOk s.call s.exch} valid={s.exch.all (fun e => validReq e.req)} unsubIssued={unsubIssuedOk s.exch} expected[{fmtRouted (exp'.map fun p => (p.1, some p.2))}]"
 
 def main : IO UInt32 := do
   let lines ← readLines (← IO.getStdin)
